@@ -291,7 +291,11 @@ impl Linker {
 
         let mut layout_rules_builder = LayoutRulesBuilder::default();
 
-        let auxiliary = input_data::AuxiliaryFiles::new(args, &self.inputs_arena)?;
+        let auxiliary = input_data::AuxiliaryFiles::new(
+            args,
+            &self.inputs_arena,
+            &mut file_loader.loaded_files,
+        )?;
 
         let mut symbol_db = symbol_db::SymbolDb::new(args, output_kind, &auxiliary, &self.herd)?;
         let mut per_symbol_flags = PerSymbolFlags::new();
@@ -425,9 +429,12 @@ fn write_dependency_file(
             continue;
         }
 
-        let path_str = input_file.filename.display().to_string();
-        if seen.insert(path_str.clone()) {
-            deps.push(path_str);
+        // A file can be reached under several spellings (e.g. `lib.a` on the command line and
+        // `/abs/lib.a` from a linker script). List it once, under the first spelling.
+        let key = std::path::absolute(&input_file.filename)
+            .unwrap_or_else(|_| input_file.filename.clone());
+        if seen.insert(key) {
+            deps.push(input_file.filename.display().to_string());
         }
     }
 
